@@ -4,7 +4,7 @@
 From Coq Require Extraction.
 From Coq Require Import ExtrOcamlBasic.
 From CKC Require Import Base.Prelude Base.SortN Model.Card Model.Deck Model.Hands Model.Five Model.HandRank
-  Model.Binary Model.Two Model.Parse Model.Container Model.Search.
+  Model.Binary Model.Two Model.Parse Model.Container Model.Search Model.Proj.
 
 Extraction Language OCaml.
 Extraction "model.ml"
@@ -33,4 +33,7 @@ Extraction "model.ml"
   Model.Two.is_suited Model.Two.is_suited_connector
   Model.Parse.card_from_index Model.Parse.get_rank_and_suit Model.Parse.hand_from_index Model.Parse.bc_from_index
   Model.Container.step
-  Model.Search.first_bad_class.
+  Model.Search.first_bad_class
+  Model.Proj.proj_wit Model.Proj.proj_best Model.Proj.proj_chain7 Model.Proj.proj_rankp Model.Proj.proj_shiftinv
+  Model.Proj.proj_hrkey Model.Proj.proj_sortp Model.Proj.proj_vrank Model.Proj.proj_hrself Model.Proj.proj_perm5
+  Model.Proj.proj_relabel Model.Proj.proj_bcsetp.
